@@ -232,7 +232,8 @@ def extract_iter(
         if replacement is None:
             continue
         if isinstance(replacement, collections.abc.Sequence):
-            items = replacement
+            # (as a tuple: not every sequence supports the slicing done below)
+            items = tuple(replacement)
         else:
             items = (replacement,)
 
